@@ -423,7 +423,9 @@ def reduceFamily : List (String × Tmpl) :=
                 s[asg e[v 8] ":=" e[bin "+" (v 3) (bin "*" (v 7) (p 5))],
                   set (idx (p 1) (v 6)) (call "p7" e[idx (p 1) (v 6), idx (v 2) (v 8)])],
               incdec (v 4) "++",
-              ifs skip (bin ">=" (v 4) (p 5)) s[set (v 4) lit0, asg e[v 3] "+=" e[p 5]] s[],
+              -- at the wrap of the inner index skip the rest of the reduced block:
+              -- `innerStart += (dimSize - 1) * stride` (upstream fix of the former `+= stride`)
+              ifs skip (bin ">=" (v 4) (p 5)) s[set (v 4) lit0, asg e[v 3] "+=" e[bin "*" (bin "-" (p 3) lit1) (p 5)]] s[],
               incdec (v 3) "++"]]]⟩) ]
 
 /-- argmax / argmin: first unmasked element initialises; floats return early on NaN or on the
@@ -934,6 +936,23 @@ theorem methodOK_iff (m : DMethod) : methodOK m = true ↔ methodConforms m = tr
   unfold methodOK methodConforms methodComplete
   split <;> simp
 
+
+/-! ### diagnosis (see tools/gox/diagnose.lean): which functions / arms fail
+`*` = whole family / method without template, `:frame` = prelude or `default:` arm differs,
+`:types` = the set of types differs from the supported set -/
+def nonconformingKernels (fams : List KFam) : List String :=
+  fams.flatMap fun f =>
+    match lookup f.base kernelTemplates with
+    | none => [f.base ++ "*"]
+    | some t => (f.members.filterMap fun m => if memberConforms t m then none else some (f.base ++ m.1))
+                ++ (if famComplete f then [] else [f.base ++ ":types"])
+def nonconformingArms (ms : List DMethod) : List String :=
+  ms.flatMap fun m =>
+    match lookup m.name dispatchTemplates with
+    | none => [m.name ++ "*"]
+    | some d => (if beqFn (normFn m.frame) d.frame then [] else [m.name ++ ":frame"])
+                ++ (m.arms.filterMap fun a => if armConforms d a then none else some (m.name ++ ":" ++ a.1))
+                ++ (if methodComplete m then [] else [m.name ++ ":types"])
 
 /-! ### an arm only calls kernels that exist for the arm's type
 
